@@ -461,6 +461,10 @@ BOUNDED = {
                  obligation="frontend/bounded-standin/cond.conditional_type",
                  known_cases="contracts/known_cond_cases.txt",
                  what="the property at SOURCE level, through the real frontend (aliases, conditional types, the conversion of named types it builds itself): `type X = V extends B ? 1 : 2` for the literal type V of each of 142 finite values (null, 1, \"a\", lists, linked-list objects) against 56 types over 9 named, possibly recursive definitions; the branch taken is compared with membership of the value in B by recursion on the value (exact in both directions); 7952 questions, those answered with a diagnostic are skipped"),
+            dict(family="front", args_quick=["--condlist", "7"], args_thorough=["--condlist", "1"],
+                 obligation="frontend/bounded-standin/condlist.conditional_type",
+                 known_cases="contracts/known_condlist_cases.txt",
+                 what="tuple assignability at SOURCE level: `type X = A extends B | C ? 1 : 2` for tuple types with a prefix up to length 2 over {string, number, string | number} and an optional rest (52 shapes; every 7th of the 140608 triples in the quick tier, all of them in the thorough tier), against brute force over all lists of length <= 4"),
             dict(family="listneg", obligation="list_shape/bounded-standin/listneg.list_is_empty",
                  known_cases="contracts/known_listneg_cases.txt",
                  what="list_is_empty / list_inhabited (assumed decider of C05): `a <: b | c` for tuple shapes with prefix <= 2 over {string, number} and an optional rest in {string, number}, against brute force over all lists of length <= 4 over three basic values"),
